@@ -134,19 +134,25 @@ def rule_b(ctx, side):
         ctx.need(len(obj) == 1, f"{f.qname}: objective function not found")
         o = obj[0]
         fp = o.args.args[0].arg
-        mins = [c for c in ast.walk(f.node) if isinstance(c, ast.Call) and norm(c.func) == "scipy.optimize.minimize"]
-        ctx.need(len(mins) == 1 and len(mins[0].args) >= 2, f"{f.qname}: scipy.optimize.minimize call not found")
-        call = mins[0]
+        # the fit as it reaches the stores, with once-bound locals and one-expression helpers (a wrapper of the optimiser) inlined
+        stores_x = {self_attr(s_.targets[0]): expand(f.node, s_.value, helpers=True) for s_ in f.node.body if isinstance(s_, ast.Assign) and self_attr(s_.targets[0])}
+        mins = {norm(c): c for v_ in stores_x.values() for c in ast.walk(v_) if isinstance(c, ast.Call) and norm(c.func) == "scipy.optimize.minimize"}
+        if not mins:
+            mins = {norm(c): c for c in ast.walk(f.node) if isinstance(c, ast.Call) and norm(c.func) == "scipy.optimize.minimize"}
+        ctx.need(len(mins) == 1 and len(list(mins.values())[0].args) >= 2, f"{f.qname}: scipy.optimize.minimize call not found")
+        call = list(mins.values())[0]
         ctx.ob(R, f.qname, "minimize(objective, x0 = current balance)", norm(call.args[0]) == o.name and norm(expand(f.node, call.args[1])) == sp["x0"], norm(call.args[1]), call)
         # the objective, with its once-bound locals replaced by their definitions: np.sum((APPLIED - dst) ** 2)
         orets = [r.value for r in ast.walk(o) if isinstance(r, ast.Return) and r.value is not None]
         ctx.need(len(orets) == 1, f"{f.qname}: objective has no single return")
-        E = expand(o, orets[0])
+        E = expand(o, orets[0], helpers=True)
         applied = None
         if isinstance(E, ast.Call) and norm(E.func) == "np.sum" and len(E.args) == 1 and isinstance(E.args[0], ast.BinOp) and isinstance(E.args[0].op, ast.Pow) and norm(E.args[0].right) == "2" \
                 and isinstance(E.args[0].left, ast.BinOp) and isinstance(E.args[0].left.op, ast.Sub) and norm(E.args[0].left.right) == dst:
             applied = E.args[0].left.left
-        ctx.ob(R, f.qname, "objective is the squared swatch residual", applied is not None, norm(E)[:120], o)
+        # a residual computed by a helper that is not a single expression is outside what this rule reads: undecided, not a violation
+        delegated = applied is None and isinstance(E, ast.Call) and (norm(E.func).startswith("self.") or isinstance(E.func, ast.Name))
+        ctx.ob(R, f.qname, "objective is the squared swatch residual", applied is not None, "" if delegated else norm(E)[:120], o)
         mm, tr = applied, None
         if applied is not None and sp["b"] and isinstance(applied, ast.BinOp) and isinstance(applied.op, ast.Add):
             mm, tr = applied.left, applied.right
@@ -162,7 +168,7 @@ def rule_b(ctx, side):
         ctx.ob(R, f.qname, "objective unpacks the parameter vector with the layout x0 was packed in", un_ok, norm(applied)[:120] if applied is not None else "", o)
         ctx.ob(R, f.qname, "objective applies the candidate on the same operand side as apply_balance", side_ok, norm(applied)[:120] if applied is not None else "", o)
         opt_txt = norm(expand(f.node, call))
-        st = {self_attr(s_.targets[0]): norm(expand(f.node, s_.value)).replace(opt_txt, "OPT") for s_ in f.node.body if isinstance(s_, ast.Assign) and self_attr(s_.targets[0])}
+        st = {a_: norm(v_).replace(opt_txt, "OPT") for a_, v_ in stores_x.items()}
         ctx.ob(R, f.qname, "result is unpacked with the same layout", st == sp["store"], str(st)[:200], f.node)
         # every normal return of find_balance has stored the fit (must-write over the CFG): an early return leaves the previous balance in place
         g = C.CFG(f.node)
@@ -212,6 +218,53 @@ def rule_c(ctx):
     ctx.floor(R, 1)
 
 
+def _fold_stages(f, branch, ref_name):
+    """Symbolic fold of the darsia branch for each (whitebalancing, colorbalancing): the calls made on the AdaptiveBalance object, in
+    order, must be [find_balance(S[-1], REF[-1], 'diagonal')], find_balance(S[:-1], REF[:-1], mode), apply_balance(image).
+    List of disagreements, or None when the branch leaves the folding language."""
+    from ..fold import Folder, Obj, Opaque, Raised, Refuse, Sym
+
+    stored = set()
+    free = []
+    for st in branch:
+        for x in ast.walk(st):
+            if isinstance(x, ast.Name) and isinstance(x.ctx, ast.Load) and x.id not in stored and x.id not in free:
+                free.append(x.id)
+        for x in ast.walk(st):
+            if isinstance(x, ast.Name) and isinstance(x.ctx, ast.Store):
+                stored.add(x.id)
+    mod = f.module
+    bad = []
+    for wb in (True, False):
+        for cb, want_mode in (("affine", "affine"), ("linear", "linear")):
+            env = {n: Opaque("arr", n) for n in free if n != "self" and n not in mod.imports and n not in mod.classes and n not in mod.funcs}
+            env["self"] = Obj("self", {"whitebalancing": wb, "colorbalancing": cb, "balancing": "darsia"})
+            fo = Folder(symbolic=True)
+            fo.func_stack.append(f.node)
+            try:
+                fo.block(branch, env)
+            except (Refuse, Raised):
+                return None
+            calls = [t for t in fo.trace if isinstance(t, Sym) and t.fn.startswith("darsia.AdaptiveBalance().")]
+            got = []
+            for t in calls:
+                meth = t.fn.rsplit(".", 1)[1]
+                a = [x.fn if isinstance(x, Sym) and not x.args and not x.kw else (x.label if isinstance(x, Opaque) else repr(x)) for x in t.args]
+                mode = t.kw.get("mode", t.args[2] if len(t.args) > 2 else None)
+                got.append((meth, tuple(a[:2]), mode))
+            sw = None
+            if got and got[0][0] == "find_balance" and got[0][1] and "[" in got[0][1][0]:
+                sw = got[0][1][0].split("[")[0]
+            img = f.params[1]
+            want = ([("find_balance", (f"{sw}[-1]", f"{ref_name}[-1]"), "diagonal")] if wb else []) + [("find_balance", (f"{sw}[:-1]", f"{ref_name}[:-1]"), want_mode)]
+            fit = got[:len(want)]
+            app = got[len(want):]
+            ok_app = len(app) == 1 and app[0][0] == "apply_balance" and app[0][1] and app[0][1][0] in (img, f"skimage.img_as_float(<opaque arr {img}>)")
+            if sw is None or sw == ref_name or fit != want or not ok_app:
+                bad.append(f"whitebalancing={wb}, colorbalancing={cb!r}: calls on the balance object are {got}")
+    return bad
+
+
 def rule_d(ctx):
     R = "C12.d"
     ctx.rule(R, "colour correction stages (darsia branch): optional diagonal stage on the last swatch row, then affine/linear on the remaining "
@@ -236,7 +289,13 @@ def rule_d(ctx):
     ]) and len(conv) <= 1
     # the two swatch sets are the measured ones and the reference ones (first argument = source, second = destination)
     ok2 = am.has(f.node, "reference_swatches = self.colorchecker.swatches_rgb") is not None
-    ctx.ob(R, f.qname, "AdaptiveBalance(); [diagonal on last row]; affine|linear on the other rows; apply_balance(image)", ok, str([norm(x)[:80] for x in core]), f.node)
+    if not ok:
+        sem = _fold_stages(f, branch, am.actual("reference_swatches") or "reference_swatches")
+        if sem is not None:
+            ctx.ob(R, f.qname, "AdaptiveBalance(); [diagonal on last row]; affine|linear on the other rows; apply_balance(image)", not sem, "; ".join(sem), f.node, evidence=True)
+            ok = None
+    if ok is not None:
+        ctx.ob(R, f.qname, "AdaptiveBalance(); [diagonal on last row]; affine|linear on the other rows; apply_balance(image)", ok, str([norm(x)[:80] for x in core]), f.node)
     ctx.ob(R, f.qname, "destination swatches are the colour checker's reference swatches", ok2, str(am.show()), f.node)
     ctx.floor(R, 1)
 
